@@ -46,7 +46,8 @@ def l_variants(acc, depth, rich):
     if depth >= 1:
         out += [("i", "y"), ("x", "i")]
         if rich:
-            out += [("ix", "y"), ("i", "i"), ("y", "ix")]
+            # ("i", "ix"): one field is the producer of the other field's value (shared input op at uneven depth)
+            out += [("ix", "y"), ("i", "i"), ("y", "ix"), ("i", "ix"), ("ix", "i")]
     if depth >= 2 and rich:
         out += [("o", "i"), ("o", "y")]
     return out
